@@ -1333,3 +1333,18 @@ def dtype_store_sweep(rep, prog, interps, rule="DTYPE.inferred-target"):
     if not any_hit:
         rep.ok(rule, {"file": "-", "line": 0, "function": "(analysed functions)", "construct": "in-place stores"},
                "%d in-place stores seen by the symbolic interpreters; none goes into an array whose dtype was inferred from run-time data" % total)
+
+
+def literals(path):
+    """path conditions split into literals: `a and b` taken True is a, b taken True; `a or b` taken False is a, b taken False; negations folded"""
+    out = []
+    for cnd, pol in path:
+        while cnd[0] == "unop" and cnd[1] in ("not", "truth"):
+            if cnd[1] == "not":
+                pol = not pol
+            cnd = cnd[2]
+        if cnd[0] == "bool" and ((cnd[1] == "and" and pol) or (cnd[1] == "or" and not pol)):
+            out += literals([(x, pol) for x in cnd[2]])
+        else:
+            out.append((cnd, pol))
+    return out
